@@ -13,4 +13,4 @@ def rule(rid: str):
     return deco
 
 
-from . import grammar, structural, tables, readers, writer, parserwiring, flow, bliss, shape, effects, libsrc  # noqa: E402,F401
+from . import grammar, structural, tables, readers, writer, parserwiring, flow, bliss, shape, effects, libsrc, tokens  # noqa: E402,F401
